@@ -172,7 +172,19 @@ func compileScript(
 	script []byte,
 	opts *CompilerOptions,
 	modStore *moduleStore,
-) (*Bytecode, error) {
+) (bc *Bytecode, err error) {
+
+	// an operand that does not fit its width (number of locals, arguments,
+	// elements, constants...) is raised by emit as a limitError.
+	defer func() {
+		if r := recover(); r != nil {
+			le, ok := r.(*limitError)
+			if !ok {
+				panic(r)
+			}
+			bc, err = nil, le.error()
+		}
+	}()
 
 	fileSet := parser.NewFileSet()
 	moduleName := opts.ModulePath
@@ -204,11 +216,32 @@ func compileScript(
 		return nil, err
 	}
 
-	bc := compiler.Bytecode()
+	bc = compiler.Bytecode()
 	if bc.Main.NumLocals > maxNumLocals {
 		return nil, ErrSymbolLimit
 	}
 	return bc, nil
+}
+
+// limitError is the value emit and changeOperand panic with when an operand
+// exceeds the capacity of the bytecode format; compileScript returns it as the
+// error of the compilation.
+type limitError struct {
+	fileSet *parser.SourceFileSet
+	node    parser.Node
+	op      Opcode
+	err     error
+}
+
+func (e *limitError) error() error {
+	switch e.op {
+	case OpGetLocal, OpSetLocal, OpDefineLocal, OpGetLocalPtr:
+		return ErrSymbolLimit
+	}
+	if e.node != nil && e.fileSet != nil {
+		return &CompilerError{FileSet: e.fileSet, Node: e.node, Err: e.err}
+	}
+	return e.err
 }
 
 // SetGlobalSymbolsIndex sets index of a global symbol. This is only required
@@ -461,7 +494,7 @@ func (c *Compiler) changeOperand(opPos int, operand ...int) {
 	inst := make([]byte, 0, 8)
 	inst, err := MakeInstruction(inst, op, operand...)
 	if err != nil {
-		panic(err)
+		panic(&limitError{op: op, err: err})
 	}
 	c.replaceInstruction(opPos, inst)
 }
@@ -553,7 +586,11 @@ func (c *Compiler) emit(node parser.Node, opcode Opcode, operands ...int) int {
 	inst := make([]byte, 0, 8)
 	inst, err := MakeInstruction(inst, opcode, operands...)
 	if err != nil {
-		panic(err)
+		le := &limitError{node: node, op: opcode, err: err}
+		if c.file != nil {
+			le.fileSet = c.file.Set()
+		}
+		panic(le)
 	}
 
 	pos := c.addInstruction(inst)
